@@ -15,8 +15,8 @@
    (IAU nominal values). *)
 From Coq Require Import QArith String.
 From QV Require Import Rt.Prelude.
-Open Scope Q_scope.
-Open Scope string_scope.
+Local Open Scope Q_scope.
+Local Open Scope string_scope.
 
 Inductive sdef :=
 | DQ (q : Q)            (* exact rational multiple of the reference unit *)
